@@ -8,7 +8,12 @@ namespace DC.Fanout
 /-- the shard index is always a valid shard -/
 theorem route_lt (f : Fanout) (E : Externals) (k : PyVal) (h : f.shards ≠ []) :
     f.route E k < f.shards.length := by
-  sorry
+  unfold route
+  cases hs : f.shards with
+  | nil => exact absurd hs h
+  | cons a t =>
+    simp only [List.head?_cons, List.length_cons]
+    exact Nat.mod_lt _ (Nat.succ_pos _)
 
 /-- `route_pure`: the shard of a key is a function of the stored form of the key and of the
 number of shards — nothing else (no process state, no hash seed, no clock, no contents) -/
@@ -17,53 +22,106 @@ theorem route_pure (f g : Fanout) (E E' : Externals) (k k' : PyVal) (s : Cache) 
     (hlen : f.shards.length = g.shards.length)
     (hkey : (put E s.cfg.disk k).1 = (put E' t.cfg.disk k').1) :
     f.route E k = g.route E' k' := by
-  sorry
+  unfold route diskHash
+  rw [hf, hg]
+  simp only
+  rw [hkey, hlen]
 
 /-- Full strength "keys the cache treats as equal go to one shard" FAILS (known finding D11):
 1 and 1.0 are one key for the database but are routed apart with 8 shards -/
 theorem route_respects_eq_fails :
     ¬ (∀ (a b : SqlVal), a.eqv b = true → hashDb a % 8 = hashDb b % 8) := by
-  sorry
+  intro h
+  have h1 := h (.int 1) (.real 0x3ff0000000000000) (by decide +kernel)
+  revert h1
+  decide +kernel
 
 /-- ... it holds for keys of one storage form: equal text, equal bytes, equal integers -/
 theorem route_respects_eq_partial (a b : SqlVal) (h : a.eqv b = true)
     (hcls : (∃ x y, a = .text x ∧ b = .text y) ∨ (∃ x y, a = .blob x ∧ b = .blob y) ∨
             (∃ x y, a = .int x ∧ b = .int y)) (n : Nat) :
     hashDb a % n = hashDb b % n := by
-  sorry
+  rcases hcls with ⟨x, y, rfl, rfl⟩ | ⟨x, y, rfl, rfl⟩ | ⟨x, y, rfl, rfl⟩
+  · have : x = y := by simpa [SqlVal.eqv] using h
+    rw [this]
+  · have : x = y := by simpa [SqlVal.eqv] using h
+    rw [this]
+  · have : intNum x = intNum y := by simpa [SqlVal.eqv, SqlVal.num] using h
+    rw [(intNum_inj' x y).1 this]
 
 /-- a key-addressed call touches only the shard the key is routed to, and there it IS the
 Cache call: same result, same new shard state (up to the observation bookkeeping) -/
 theorem keyed_only_route (f : Fanout) (E : Externals) (k : PyVal) (op : Cache → Cache × Out)
     (j : Nat) (hj : j ≠ f.route E k) :
-    (f.keyed E k op).1.shards[j]? = f.shards[j]? := by
-  sorry
+    (f.keyed E k op).1.shards[j]? = f.shards[j]? :=
+  onShard_getElem_ne f _ j op hj
 
 theorem keyed_is_shard_op (f : Fanout) (E : Externals) (k : PyVal) (op : Cache → Cache × Out)
     (s : Cache) (hs : f.shards[f.route E k]? = some s) :
     (f.keyed E k op).2 = (op { s with env := f.env, envMiss := false, trace := [] }).2 ∧
-    (f.keyed E k op).1.shards[f.route E k]? = some (op { s with env := f.env, envMiss := false, trace := [] }).1 := by
-  sorry
+    (f.keyed E k op).1.shards[f.route E k]? = some (op { s with env := f.env, envMiss := false, trace := [] }).1 :=
+  onShard_some f _ op s hs
 
 /-- the number of shards never changes -/
 theorem onShard_length (f : Fanout) (i : Nat) (op : Cache → Cache × Out) :
     (f.onShard i op).1.shards.length = f.shards.length := by
-  sorry
+  unfold onShard
+  split
+  · rfl
+  · simp
 
 /-- `len(fanout)` is the sum of the shard lengths: every shard exactly once -/
 theorem len_sum (f : Fanout) :
     (f.len).2 = .int ((f.shards.map (·.count)).sum) := by
-  sorry
+  show sumInts (f.each (fun s => s.len)).2 = _
+  rw [each_len, sumInts_ints]
 
 /-- `clear()` empties every shard (every shard exactly once), for all table and page sizes -/
 theorem clear_all_shards (f : Fanout) (h : ∀ s ∈ f.shards, Cache.TableInv s ∧ 0 < s.cfg.page) :
     ∀ s ∈ (f.clear).1.shards, s.rows = [] := by
-  sorry
+  have hI := each_induct f (fun s => s.clear)
+    (fun k acc => (∀ j : Nat, j < k → ∀ s, acc.1.shards[j]? = some s → s.rows = []) ∧
+      (∀ j : Nat, k ≤ j → acc.1.shards[j]? = f.shards[j]?))
+    ⟨fun j hj => absurd hj (Nat.not_lt_zero _), fun _ _ => rfl⟩ ?_
+  · intro s hs
+    change s ∈ (f.each (fun s => s.clear)).1.shards at hs
+    obtain ⟨j, hj⟩ := List.mem_iff_getElem?.1 hs
+    by_cases hjn : j < f.shards.length
+    · exact hI.1 j hjn s hj
+    · have := hI.2 j (by omega)
+      rw [hj, List.getElem?_eq_none (by omega)] at this
+      exact absurd this (by simp)
+  · intro k acc hk ⟨h1, h2⟩
+    have hk2 := h2 k (Nat.le_refl _)
+    rw [List.getElem?_eq_getElem hk] at hk2
+    obtain ⟨_, hsh⟩ := onShard_some acc.1 k (fun s => s.clear) _ hk2
+    have hinv := h _ (List.getElem_mem hk)
+    refine ⟨?_, ?_⟩
+    · intro j hj s hs
+      change (acc.1.onShard k _).1.shards[j]? = some s at hs
+      by_cases hjk : j = k
+      · subst hjk
+        rw [hsh] at hs
+        injection hs with hs
+        rw [← hs]
+        exact (Cache.clear_all { f.shards[j] with env := acc.1.env, envMiss := false, trace := [] }
+          hinv.1.tbl.asc hinv.1.tbl.pos hinv.2).1
+      · rw [onShard_getElem_ne _ _ _ _ hjk] at hs
+        exact h1 j (by omega) s hs
+    · intro j hj
+      show (acc.1.onShard k _).1.shards[j]? = _
+      rw [onShard_getElem_ne _ _ _ _ (by omega)]
+      exact h2 j (by omega)
 
 /-- the total size limit is divided among the shards -/
 theorem limit_divided (n : Nat) (c : Cfg) (stats : Bool) :
     ∀ s ∈ (Fanout.init n c stats).shards, s.cfg.limN = c.limN ∧ s.cfg.limD = c.limD * n := by
-  sorry
+  intro s hs
+  unfold init at hs
+  rw [List.mem_replicate] at hs
+  rw [hs.2]
+  exact ⟨rfl, rfl⟩
+
 
 /-- non-vacuity of the D11 witness -/
 example : (SqlVal.int 1).eqv (.real 0x3ff0000000000000) = true ∧
